@@ -172,11 +172,15 @@ func checkWindow(rp report, cs []bytecode.Type, failIP int) (clause, detail stri
 	if len(rp.Window) == 0 {
 		return "report-window", "no instruction listed"
 	}
+	if failIP < rp.Window[0].IP || failIP > rp.Window[len(rp.Window)-1].IP {
+		return "report-window", fmt.Sprintf("the failing instruction %d is not among the listed instructions %d..%d", failIP, rp.Window[0].IP, rp.Window[len(rp.Window)-1].IP)
+	}
 	for k, ln := range rp.Window {
 		if k > 0 && ln.IP != rp.Window[k-1].IP+1 {
 			return "report-window", fmt.Sprintf("listed instruction indices are not consecutive: %d after %d", ln.IP, rp.Window[k-1].IP)
 		}
-		if ln.IP < 0 || ln.IP >= len(cs) || ln.IP < failIP-3 || ln.IP > failIP+3 {
+		if ln.IP < 0 || ln.IP >= len(cs) || ln.IP < failIP-20 || ln.IP > failIP+20 {
+			// how many neighbours are listed is the report's choice; that they are neighbours is not
 			return "report-window", fmt.Sprintf("listed instruction %d is not around the failing instruction %d", ln.IP, failIP)
 		}
 		in := cs[ln.IP]
@@ -478,7 +482,7 @@ func (C19) RunCase(i int) core.Result {
 			return r
 		}
 		stdin = "1\n"
-		defs = append(defs, "gl = read()", "gsel = aton(gl[0:#gl - 1])", "gtrig = if gsel == 1 {\n"+cls.trig+"\n} else {\n"+cls.safe+"\n}")
+		defs = append(defs, "chomp = (s) -> {\nn = #s\nif n == 0 {\nreturn s\n}\nk = n - 1\nc = s[k]\nif c == \"\\n\" {\ns[0:k]\n} else {\ns\n}\n}", "gl = read()", "gsel = aton(chomp(gl))", "gtrig = if gsel == 1 {\n"+cls.trig+"\n} else {\n"+cls.safe+"\n}")
 		// `x = if ...` is not an expression statement form: bind through a function
 		defs[len(defs)-1] = "choose = (s) -> if s == 1 {\n" + cls.trig + "\n} else {\n" + cls.safe + "\n}"
 		if cls.name == "nil" || cls.name == "nil-assign" {
